@@ -3,6 +3,7 @@ package p_net
 import (
 	"bytes"
 	"context"
+	"crypto/sha256"
 	"encoding/binary"
 	"encoding/hex"
 	"encoding/json"
@@ -30,6 +31,7 @@ import (
 	"github.com/spikeekips/mitum/util"
 	"github.com/spikeekips/mitum/util/encoder"
 	jsonenc "github.com/spikeekips/mitum/util/encoder/json"
+	"github.com/spikeekips/mitum/util/hint"
 	"github.com/spikeekips/mitum/util/valuehash"
 	"pgregory.net/rapid"
 	"verif/internal/ev"
@@ -41,6 +43,11 @@ import (
 //      must be what the other side reads.
 //   B. hostile peer: a byte stream (mutated valid transcripts, or fuzz input) is fed into the read side; every read
 //      returns an error or a well-formed message and never panics.
+//   C. sequences: a node reads many streams with ONE encoder set (encoder.Encoders and the hint sets inside it keep
+//      lookup caches between reads). A drawn sequence of streams - hostile heads that name a parsable but unregistered
+//      encoder hint or header hint, each sent two or more times in a row, other hostile streams, valid streams - is read
+//      by fresh brokers that share one fresh encoder set; every read obeys B, and the valid streams are still read
+//      completely / round-trip identically (A) wherever they stand in the sequence.
 
 // ---------------------------------------------------------------- environment
 
@@ -50,6 +57,23 @@ type c30Env struct {
 	keys  []*base.MPrivatekey
 	addrs []base.Address
 	hints []string // every hint registered the way launch does
+	// registered: type -> major versions of every registered hint and of the encoder itself (a hint of another type, or
+	// of another major version of a known type, is not registered)
+	registered map[string]map[uint64]bool
+	// note is appended to the input description of every hostile-read violation (the position in a sequence of reads)
+	note string
+}
+
+// c30NewSeqEnv builds a fresh encoder set exactly as c30GetEnv / launch do. Nothing is shared with env but the keys.
+func c30NewSeqEnv(env *c30Env) *c30Env {
+	enc := jsonenc.NewEncoder()
+	encs := encoder.NewEncoders(enc, enc)
+
+	if err := launch.LoadHinters(encs); err != nil {
+		panic(err)
+	}
+
+	return &c30Env{enc: enc, encs: encs, keys: env.keys, addrs: env.addrs, hints: env.hints, registered: env.registered}
 }
 
 var c30GetEnv = sync.OnceValue(func() *c30Env {
@@ -81,6 +105,21 @@ var c30GetEnv = sync.OnceValue(func() *c30Env {
 	}
 
 	sort.Strings(env.hints)
+
+	env.registered = map[string]map[uint64]bool{}
+
+	for _, s := range append([]string{enc.Hint().String()}, env.hints...) {
+		ht, err := hint.ParseHint(s)
+		if err != nil {
+			panic(err)
+		}
+
+		if env.registered[ht.Type().String()] == nil {
+			env.registered[ht.Type().String()] = map[uint64]bool{}
+		}
+
+		env.registered[ht.Type().String()][ht.Version().Major()] = true
+	}
 
 	return env
 })
@@ -983,7 +1022,7 @@ func c30FirstDiff(a, b []byte) int {
 
 func c30RoundTrip(t ev.TB, r *ev.Rec, env *c30Env, tr c30Transcript) {
 	c := c30NewConn(env, tr.Ch)
-	desc := tr.desc()
+	desc := tr.desc() + env.note
 
 	pending := [2][]int{}
 
@@ -1260,7 +1299,7 @@ func c30Hostile(t ev.TB, r *ev.Rec, env *c30Env, side int, raw []byte, ch c30Chu
 	}()
 
 	// every message names the input, so a reported violation is self-contained
-	where := fmt.Sprintf(" [side %d, chunking %s%v, %d-byte stream %s]", side, ch.Name, ch.Cuts, len(raw), c30Short(raw))
+	where := fmt.Sprintf(" [side %d, chunking %s%v, %d-byte stream %s]%s", side, ch.Name, ch.Cuts, len(raw), c30Short(raw), env.note)
 
 	seterr := func(err error) {
 		res.Err = err.Error()
@@ -1581,6 +1620,420 @@ func c30Journal(r *ev.Rec, what string, raw []byte) {
 	r.Journal("%s %s", what, hex.EncodeToString(raw))
 }
 
+// ---------------------------------------------------------------- C. sequences of reads on one encoder set
+
+// A hint a peer may put on the wire that hint.ParseHint accepts but that names nothing registered: an unknown type,
+// or a known type with a major version nobody registered; optionally padded the way ParseHint tolerates.
+var (
+	c30UnknownTypes = []string{
+		"bson-encoder", "xml-encoder", "msgpack-encoder", "json-encoder", "quicstream-unknown-response-header",
+		"quicstream-default-response-header", "operation-header", "c30-nothing",
+	}
+	c30UnknownVersions = []string{"v0.0.1", "v0.9.0", "v1.0.0", "v2.3.4", "v9.9.9"}
+	c30HintPads        = []string{"", "", "", "", " ", "\x00", "  \x00\x00"}
+)
+
+// c30Unregistered reports whether s parses as a hint and names nothing registered.
+func c30Unregistered(env *c30Env, s string) bool {
+	ht, err := hint.ParseHint(s)
+	if err != nil {
+		return false
+	}
+
+	return !env.registered[ht.Type().String()][ht.Version().Major()]
+}
+
+func genC30UnknownHint(env *c30Env) *rapid.Generator[string] {
+	return rapid.Custom(func(t *rapid.T) string {
+		var typ string
+
+		switch rapid.IntRange(0, 3).Draw(t, "typeKind") {
+		case 0:
+			typ = rapid.StringMatching(`[a-z]{2,8}(-[a-z0-9]{2,8}){0,2}`).Draw(t, "type")
+		case 1:
+			// the type of a registered hint (only its major version will be unknown)
+			s := rapid.SampledFrom(env.hints).Draw(t, "knownType")
+			if ht, err := hint.ParseHint(s); err == nil {
+				typ = ht.Type().String()
+			}
+		default:
+			typ = rapid.SampledFrom(c30UnknownTypes).Draw(t, "type")
+		}
+
+		s := typ + "-" + rapid.SampledFrom(c30UnknownVersions).Draw(t, "version")
+		if !c30Unregistered(env, s) {
+			s = typ + "-v7.0.1"
+		}
+
+		if !c30Unregistered(env, s) {
+			s = "bson-encoder-v0.0.1"
+		}
+
+		return s + rapid.SampledFrom(c30HintPads).Draw(t, "pad")
+	})
+}
+
+// c30SeqItem is one byte stream of a peer, read Reads times back to back (each time by a fresh broker), or one
+// complete round trip between two fresh brokers; all on the encoder set of the sequence.
+type c30SeqItem struct {
+	Kind    string // unknown-enc-hint | unknown-header-hint | mutated | valid | roundtrip
+	Name    string
+	Side    int // the reading side
+	Raw     []byte
+	Pattern uint
+	NMsgs   int
+	Valid   bool          // an unmodified stream written by the real writers: must be read completely
+	Chs     []c30Chunking // one read per entry
+	Tr      c30Transcript // roundtrip
+}
+
+func (it c30SeqItem) hostileHead() bool {
+	return it.Kind == "unknown-enc-hint" || it.Kind == "unknown-header-hint"
+}
+
+func c30SeqDesc(seq []c30SeqItem) string {
+	ss := make([]string, len(seq))
+
+	for i, it := range seq {
+		if it.Kind == "roundtrip" {
+			ss[i] = fmt.Sprintf("roundtrip(%s)", it.Tr.desc())
+
+			continue
+		}
+
+		ss[i] = fmt.Sprintf("%s x%d side=%d pattern=%d %s", it.Name, len(it.Chs), it.Side, it.Pattern, c30Short(it.Raw))
+	}
+
+	return "{" + strings.Join(ss, " | ") + "}"
+}
+
+func c30SeqFingerprint(seq []c30SeqItem) string {
+	h := sha256.New()
+
+	for _, it := range seq {
+		fmt.Fprintf(h, "%s|%d|%d|%d|", it.Kind, it.Side, it.Pattern, len(it.Raw))
+		_, _ = h.Write(it.Raw)
+
+		for _, ch := range it.Chs {
+			fmt.Fprintf(h, "|%s%v%v", ch.Name, ch.Cuts, ch.EOFTog)
+		}
+
+		if it.Kind == "roundtrip" {
+			fmt.Fprintf(h, "|%s|%v|%v", it.Tr.desc(), it.Tr.Ch[0], it.Tr.Ch[1])
+		}
+	}
+
+	return "seq|" + hex.EncodeToString(h.Sum(nil)[:12])
+}
+
+// c30SetHeaderHint rewrites the _hint of a header JSON object, keeping every other field.
+func c30SetHeaderHint(b []byte, ht string) []byte {
+	q, _ := json.Marshal(ht)
+
+	var m map[string]json.RawMessage
+	if err := json.Unmarshal(b, &m); err != nil || m == nil {
+		return []byte(`{"_hint":` + string(q) + `}`)
+	}
+
+	m["_hint"] = json.RawMessage(q)
+
+	nb, _ := json.Marshal(m)
+
+	return nb
+}
+
+func c30SmallTranscript(t *rapid.T, env *c30Env, maxMore int, label string) c30Transcript {
+	tr := genC30Transcript(env, maxMore).Draw(t, label)
+
+	for i := range tr.Msgs {
+		if len(tr.Msgs[i].Body) > 600 {
+			tr.Msgs[i].Body = tr.Msgs[i].Body[:600]
+			tr.Msgs[i].Desc += "(cut)"
+		}
+	}
+
+	return tr
+}
+
+// genC30SeqItem draws one item. All material is written by brokers on the shared environment env BEFORE the sequence
+// runs, so that nothing but the reads of the sequence touches the encoder set of the sequence.
+func genC30SeqItem(env *c30Env, r *ev.Rec, kind string) *rapid.Generator[c30SeqItem] {
+	return rapid.Custom(func(t *rapid.T) c30SeqItem {
+		it := c30SeqItem{Kind: kind, Name: kind}
+
+		if kind == "roundtrip" {
+			it.Tr = c30SmallTranscript(t, env, 3, "transcript")
+
+			return it
+		}
+
+		tr := c30SmallTranscript(t, env, 2, "material")
+		it.Side = rapid.IntRange(0, 1).Draw(t, "side")
+
+		raw, pattern, nmsgs := c30Record(t, r, env, tr, it.Side)
+		lay := c30Walk(raw)
+
+		if len(raw) == 0 || (it.hostileHead() && len(lay.Hints) == 0) {
+			// the handler wrote no head in this transcript: use the client's stream (it starts with the request head)
+			it.Side = 0
+			raw, pattern, nmsgs = c30Record(t, r, env, tr, it.Side)
+			lay = c30Walk(raw)
+		}
+
+		it.Raw, it.Pattern, it.NMsgs = raw, pattern, nmsgs
+
+		repeats := []int{1, 1, 2}
+
+		switch kind {
+		case "valid":
+			it.Valid = true
+		case "unknown-enc-hint", "unknown-header-hint":
+			if len(lay.Hints) == 0 || len(lay.Headers) != len(lay.Hints) {
+				t.Fatalf("harness: no head in a recorded stream: %s", c30Short(raw))
+			}
+
+			// mostly the first head: then nothing else is looked up between two reads of this stream
+			i := 0
+			if len(lay.Hints) > 1 && rapid.IntRange(0, 3).Draw(t, "laterHead") == 0 {
+				i = rapid.IntRange(1, len(lay.Hints)-1).Draw(t, "head")
+			}
+
+			ht := genC30UnknownHint(env).Draw(t, "unknownHint")
+
+			if kind == "unknown-enc-hint" {
+				it.Raw = c30Reframe(raw, lay.Hints[i], []byte(ht))
+			} else {
+				reg := lay.Headers[i]
+				it.Raw = c30Reframe(raw, reg, c30SetHeaderHint(raw[reg[0]:reg[1]], ht))
+			}
+
+			it.Name = fmt.Sprintf("%s(%q)", kind, ht)
+			repeats = []int{2, 2, 2, 3, 1}
+
+			if rapid.IntRange(0, 3).Draw(t, "wrongSide") == 0 {
+				it.Side = 1 - it.Side
+			}
+		case "mutated":
+			mut := c30Mutate(t, env, raw)
+			v := mut.Variants[rapid.IntRange(0, len(mut.Variants)-1).Draw(t, "variant")]
+
+			if c30TooExpensive(v) {
+				// giant declared lengths are left to the single deterministic case
+				it.Kind, it.Name, it.Valid = "valid", "valid", true
+
+				break
+			}
+
+			it.Raw, it.Valid = v, mut.Valid && len(mut.Variants) == 1
+			it.Name = "mutated(" + mut.Name + ")"
+			repeats = []int{1, 2}
+		default:
+			t.Fatalf("harness: unknown sequence item kind %q", kind)
+		}
+
+		if !it.Valid && it.Side == 1 && rapid.IntRange(0, 3).Draw(t, "randomPattern") == 0 {
+			it.Pattern = uint(rapid.IntRange(0, 255).Draw(t, "pattern"))
+		}
+
+		n := rapid.SampledFrom(repeats).Draw(t, "reads")
+		ch := genC30Chunking().Draw(t, "chunking")
+
+		for k := 0; k < n; k++ {
+			if k > 0 && rapid.Bool().Draw(t, "rechunk") {
+				ch = genC30Chunking().Draw(t, "chunking")
+			}
+
+			it.Chs = append(it.Chs, ch)
+		}
+
+		return it
+	})
+}
+
+var c30SeqKinds = []string{
+	"unknown-enc-hint", "unknown-enc-hint", "unknown-enc-hint", "unknown-header-hint", "unknown-header-hint", "unknown-header-hint",
+	"valid", "valid", "roundtrip", "mutated", "mutated",
+}
+
+// genC30Seq: 1..5 drawn items, closed by a valid stream or a round trip (the valid traffic after the hostile one).
+func genC30Seq(env *c30Env, r *ev.Rec) *rapid.Generator[[]c30SeqItem] {
+	return rapid.Custom(func(t *rapid.T) []c30SeqItem {
+		n := rapid.IntRange(1, 5).Draw(t, "items")
+		seq := make([]c30SeqItem, 0, n+1)
+
+		for i := 0; i < n; i++ {
+			kind := rapid.SampledFrom(c30SeqKinds).Draw(t, "kind")
+			seq = append(seq, genC30SeqItem(env, r, kind).Draw(t, "item"))
+		}
+
+		last := rapid.SampledFrom([]string{"valid", "roundtrip"}).Draw(t, "lastKind")
+
+		return append(seq, genC30SeqItem(env, r, last).Draw(t, "last"))
+	})
+}
+
+type c30SeqResult struct {
+	Reads   int
+	Classes []string
+}
+
+// c30RunSeq runs the sequence on ONE fresh encoder set. Oracle: every read obeys part B (error or well-formed message,
+// never a panic); an unmodified stream is read completely and a round trip reads back what was written (part A),
+// whatever was read before. Whether the repeated read of the same bytes ends like the first one is counted, not judged.
+func c30RunSeq(t ev.TB, r *ev.Rec, env *c30Env, seq []c30SeqItem) (out c30SeqResult) {
+	senv := c30NewSeqEnv(env)
+	desc := c30SeqDesc(seq)
+	seen := map[string]bool{}
+
+	class := func(c string) {
+		if !seen[c] {
+			seen[c] = true
+			out.Classes = append(out.Classes, c)
+		}
+	}
+
+	for i, it := range seq {
+		if it.Kind == "roundtrip" {
+			senv.note = fmt.Sprintf(" [item %d of the sequence %s read with one encoder set]", i, desc)
+			c30RoundTrip(t, r, senv, it.Tr)
+			class("seq:roundtrip")
+			out.Reads += len(it.Tr.Msgs)
+
+			continue
+		}
+
+		var first c30HostileResult
+
+		for k, ch := range it.Chs {
+			senv.note = fmt.Sprintf(" [read %d of item %d of the sequence %s read with one encoder set]", k, i, desc)
+			c30Journal(r, fmt.Sprintf("seq item=%d read=%d %s side=%d chunk=%s%v pattern=%d", i, k, it.Kind, it.Side, ch.Name, ch.Cuts, it.Pattern), it.Raw)
+
+			res := c30Hostile(t, r, senv, it.Side, it.Raw, ch, it.Pattern)
+			out.Reads++
+
+			if it.Valid && res.Err != "" && res.Msgs < it.NMsgs {
+				r.Violation(t, "valid-stream-rejected", "an unmodified %d-message stream %s (side %d, chunking %s %v) was rejected after %d messages: %s%s",
+					it.NMsgs, c30Short(it.Raw), it.Side, ch.Name, ch.Cuts, res.Msgs, res.Err, senv.note)
+			}
+
+			switch {
+			case k == 0:
+				first = res
+			case (res.Err == "") != (first.Err == "") || res.Msgs != first.Msgs:
+				class("seq:repeat-ends-differently(not judged)")
+			default:
+				class("seq:repeat-ends-alike")
+			}
+
+			for _, c := range res.Classes {
+				class(c)
+			}
+
+			switch {
+			case it.hostileHead() && res.Err != "" && res.Msgs == 0:
+				class("seq:" + it.Kind + "-rejected-at-head")
+			case it.hostileHead() && res.Err != "":
+				class("seq:" + it.Kind + "-rejected-later")
+			case it.hostileHead():
+				class("seq:" + it.Kind + "-all-read")
+			}
+		}
+
+		class(fmt.Sprintf("seq:%s-x%d", it.Kind, len(it.Chs)))
+	}
+
+	return out
+}
+
+// c30SeqNontrivial: a hostile head read at least twice in a row, and valid traffic after it.
+func c30SeqNontrivial(seq []c30SeqItem) bool {
+	for i, it := range seq {
+		if it.hostileHead() && len(it.Chs) >= 2 {
+			for _, later := range seq[i+1:] {
+				if later.Valid || later.Kind == "roundtrip" {
+					return true
+				}
+			}
+		}
+	}
+
+	return false
+}
+
+// c30FixedMaterial: the streams of one fixed exchange (request head, response head, fixed body), written by the real
+// writers on env.
+func c30FixedMaterial(t ev.TB, r *ev.Rec, env *c30Env) (tr c30Transcript, raws [2][]byte, patterns [2]uint, nmsgs [2]int) {
+	op := isaacnetwork.NewOperationRequestHeader(valuehash.NewSHA256([]byte("c30")))
+	op.SetClientID("seq")
+
+	tr = c30Transcript{Msgs: []c30Msg{
+		{Dir: 0, Kind: "reqhead", Req: op, Eager: true, Desc: "req:operation"},
+		{Dir: 1, Kind: "reshead", Res: quicstreamheader.NewDefaultResponseHeader(false, errors.New("showme")), Eager: true, Desc: "res:default(ok=false,err=true)"},
+		{Dir: 1, Kind: "body", BodyType: quicstreamheader.FixedLengthBodyType, Body: []byte(`{"a":1}`), Eager: true, Desc: "body:fixed/7"},
+	}}
+
+	for side := 0; side < 2; side++ {
+		raws[side], patterns[side], nmsgs[side] = c30Record(t, r, env, tr, side)
+	}
+
+	return tr, raws, patterns, nmsgs
+}
+
+var c30FixedUnknownHints = []string{
+	"bson-encoder-v0.0.1", "json-encoder-v9.9.9", "json-encoder-v1.0.0", "xml-encoder-v0.0.1 ", "operation-header-v9.9.9",
+	"quicstream-unknown-response-header-v0.0.1", "quicstream-default-response-header-v3.0.0", "c30-nothing-v2.3.4\x00",
+}
+
+// c30FixedSeqs enumerates: unknown hint x {as encoder hint, as header hint} x {request head to a handler, response head
+// to a client through ReadResponseHead, through ReadBody}: the hostile head three times, the valid stream, the hostile
+// head twice more, a round trip.
+func c30FixedSeqs(t ev.TB, r *ev.Rec, env *c30Env) (seqs [][]c30SeqItem) {
+	tr, raws, patterns, nmsgs := c30FixedMaterial(t, r, env)
+	whole := c30Chunking{Name: "whole"}
+	one := c30Chunking{Name: "1byte", Cuts: []int{1}, EOFTog: true}
+
+	for _, ht := range c30FixedUnknownHints {
+		if !c30Unregistered(env, ht) {
+			t.Fatalf("harness: %q is registered", ht)
+		}
+
+		for _, kind := range []string{"unknown-enc-hint", "unknown-header-hint"} {
+			for reader := 0; reader < 3; reader++ {
+				side := min(reader, 1)
+				raw := raws[side]
+				lay := c30Walk(raw)
+
+				if len(lay.Hints) < 1 || len(lay.Headers) < 1 {
+					t.Fatalf("harness: no head in the fixed stream of side %d", side)
+				}
+
+				var bad []byte
+				if kind == "unknown-enc-hint" {
+					bad = c30Reframe(raw, lay.Hints[0], []byte(ht))
+				} else {
+					bad = c30Reframe(raw, lay.Headers[0], c30SetHeaderHint(raw[lay.Headers[0][0]:lay.Headers[0][1]], ht))
+				}
+
+				pattern := patterns[side]
+				if reader == 2 {
+					pattern = 0xff // every read through ReadBody
+				}
+
+				hostile := c30SeqItem{Kind: kind, Name: fmt.Sprintf("%s(%q)", kind, ht), Side: side, Raw: bad, Pattern: pattern, NMsgs: nmsgs[side]}
+				valid := c30SeqItem{Kind: "valid", Name: "valid", Side: side, Raw: raw, Pattern: pattern, NMsgs: nmsgs[side], Valid: true, Chs: []c30Chunking{whole}}
+
+				h3, h2 := hostile, hostile
+				h3.Chs = []c30Chunking{whole, whole, one}
+				h2.Chs = []c30Chunking{one, whole}
+
+				seqs = append(seqs, []c30SeqItem{h3, valid, h2, {Kind: "roundtrip", Name: "roundtrip", Tr: tr}})
+			}
+		}
+	}
+
+	return seqs
+}
+
 func TestC30(t *testing.T) {
 	env := c30GetEnv()
 
@@ -1592,13 +2045,19 @@ func TestC30(t *testing.T) {
 		"client and handler brokers joined by two in-memory streams with chunkings {whole,1-byte,cuts 1..7,cuts 1..64}x{EOF with data, EOF after}. " +
 		"B (hostile): the bytes one side wrote, mutated {none, every/drawn truncation, byte flip, hostile length word, type byte, header JSON field " +
 		"deleted/retyped/re-hinted to any registered hint, encoder hint, inserted garbage}, fed to the other side's read calls (1 in 6: to the wrong side's). " +
-		"non-trivial: A: >=2 messages, a non-empty body, and its stream chunked below 8 bytes; B: any mutated stream; distinct by (transcript, chunking, mutation)")
+		"C (sequence): 2..6 streams read one after the other by fresh brokers that share ONE fresh encoder set (as the streams of a node do): heads whose encoder hint / " +
+		"header _hint is parsable but unregistered (unknown type, or known type with an unregistered major version, optionally padded), each read 1..3 times " +
+		"back to back with drawn chunkings, B-mutated streams, unmodified streams, round trips; closed by an unmodified stream or a round trip; plus a fixed " +
+		"enumeration (8 unknown hints x {encoder hint, header hint} x {ReadRequestHead, ReadResponseHead, ReadBody}: hostile x3, valid, hostile x2, round trip). " +
+		"non-trivial: A: >=2 messages, a non-empty body, and its stream chunked below 8 bytes; B: any mutated stream; C: an unregistered-hint head read twice or more " +
+		"in a row with valid traffic after it; distinct by (transcript, chunking, mutation) / by the streams and chunkings of the sequence")
 	r.Floor(100)
 	r.Assume("request/response headers are valid (callers run IsValid before writing) and fixed-length bodies are written with their true length",
 		"the handler prefix (32 bytes) is consumed by quicstream.PrefixHandler before the handler broker reads; the harness does the same",
 		"a fixed-length body is handed out lazily: a stream that ends before the declared length shows as a short read to the consumer holding bodyLength (counted, not judged)",
 		"hint/header length words above MaxInt32 are rejected by the reader; below that the reader allocates what the peer declares (observed, not judged; EnsureRead allocates the remaining declared length again for every Read call; 64 MiB is exercised once, other declared lengths between 256 KiB and the reader's 2 GiB cap are skipped)",
-		"a header returned without error must survive IsValid / OK / Err / Handler calls (what the handler layer does next) without panic")
+		"a header returned without error must survive IsValid / OK / Err / Handler calls (what the handler layer does next) without panic",
+		"a node serves all its streams with one encoder.Encoders (launch.PEncoder); 'any byte stream from a peer' therefore includes a stream that arrives after other (hostile or valid) streams were read with the same encoder set; the verdict on a repeated stream may differ from the first one (counted, not judged) but each read must still end in an error or a well-formed message")
 
 	// ---- deterministic: a large accepted hint length (64 MiB; the reader's own cap is 2 GiB - 1) on a short stream
 	t.Run("maxalloc", func(t *testing.T) {
@@ -1647,7 +2106,7 @@ func TestC30(t *testing.T) {
 	maxMore := r.N(6, 6)
 	rtSamples := 0
 
-	r.MaxSamples(6)
+	r.MaxSamples(9)
 
 	r.Checks(4000, 80000)
 	r.ShrinkTime(30 * time.Second)
@@ -1789,6 +2248,44 @@ func TestC30(t *testing.T) {
 			r.Sample(map[string]any{"mode": "hostile", "read_by_side": readSide, "from": tr.desc(), "mutation": mut.Name, "chunking": ch, "stream_bytes": len(raw)})
 		}
 	})
+
+	// ---- C. sequences of reads on one encoder set: the fixed enumeration, then drawn sequences
+	t.Run("repeated-heads", func(t *testing.T) {
+		for i, seq := range c30FixedSeqs(t, r, env) {
+			if !r.Mine(i) {
+				continue
+			}
+
+			res := c30RunSeq(t, r, env, seq)
+			r.CaseN(1, 1, append(res.Classes, "mode:sequence-fixed")...)
+
+			if i == 0 {
+				r.Sample(map[string]any{"mode": "sequence-fixed", "sequence": c30SeqDesc(seq)})
+			}
+		}
+	})
+
+	seqSamples := 0
+
+	r.Checks(1200, 48000)
+	rapid.Check(t, func(rt *rapid.T) {
+		seq := genC30Seq(env, r).Draw(rt, "sequence")
+		res := c30RunSeq(rt, r, env, seq)
+
+		nontrivial := c30SeqNontrivial(seq)
+		classes := append(res.Classes, "mode:sequence", fmt.Sprintf("seq-items:%d", len(seq)))
+
+		if nontrivial {
+			classes = append(classes, "nontrivial:sequence")
+		}
+
+		r.Case(c30SeqFingerprint(seq), nontrivial, classes...)
+
+		if nontrivial && seqSamples < 2 && r.WantSample() {
+			seqSamples++
+			r.Sample(map[string]any{"mode": "sequence", "sequence": c30SeqDesc(seq), "reads": res.Reads})
+		}
+	})
 }
 
 // ---------------------------------------------------------------- native fuzz target
@@ -1887,6 +2384,37 @@ func c30Seeds(env *c30Env) (seeds [][]byte) {
 		}
 	}
 
+	// sequences on one encoder set: a head with a parsable but unregistered encoder hint / header hint read two and three
+	// times in a row, with valid streams and other hostile ones around it
+	{
+		_, raws, patterns, _ := c30FixedMaterial(tb, r, env)
+		frame := func(side int, flags byte, raw []byte) []byte { return append([]byte{flags<<1 | byte(side)}, raw...) }
+
+		for _, ht := range c30FixedUnknownHints {
+			for side := 0; side < 2; side++ {
+				raw := raws[side]
+				lay := c30Walk(raw)
+				flags := byte(patterns[side]<<3) & 0x78
+				valid := frame(side, flags, raw)
+				other := frame(side, 0, c30Reframe(raw, lay.Headers[0], []byte(`{"_hint":"x"}`)))
+
+				for _, bad := range [][]byte{
+					c30Reframe(raw, lay.Hints[0], []byte(ht)),
+					c30Reframe(raw, lay.Headers[0], c30SetHeaderHint(raw[lay.Headers[0][0]:lay.Headers[0][1]], ht)),
+				} {
+					b := frame(side, flags, bad)
+					seeds = append(seeds,
+						c30FuzzJoin(b, nil),                                   // twice
+						c30FuzzJoin(b, nil, nil, valid),                       // three times, then valid
+						c30FuzzJoin(valid, b, frame(side, flags|1, bad), nil), // valid, then three times with other chunkings
+						c30FuzzJoin(b, other, b, nil, valid, nil),             // interleaved with another hostile head
+						c30FuzzJoin(b, frame(1-side, 0x78, bad), b),           // the same head to the other kind of reader in between
+					)
+				}
+			}
+		}
+	}
+
 	for _, raw := range [][]byte{{}, {0}, {1}, {2}, {3}, {2, 1}, {2, 2}, {2, 3}, {2, 0}, {2, 2, 0, 0, 0, 0, 0, 0, 0, 0}, {2, 2, 0xff, 0xff, 0xff, 0xff, 0xff, 0xff, 0xff, 0xff, 1}} {
 		add(0, 0, raw)
 		add(1, 0x0f, raw)
@@ -1918,13 +2446,52 @@ func c30TooExpensive(raw []byte) bool {
 	return c30Walk(raw).MaxAlloc > c30MaxDeclared
 }
 
-// c30FuzzOne: first byte = side (bit 0), chunking (bits 1-2: whole, 1-byte, 3-byte, 7/1/13), EOF-with-data (bit 3),
+// The fuzz input is a sequence of frames separated by c30FuzzSep, all read with ONE fresh encoder set (the streams a
+// node gets one after the other); an empty frame repeats the previous one. An input without separator is one frame.
+// Frame: first byte = side (bit 0), chunking (bits 1-2: whole, 1-byte, 3-byte, 7/1/13), EOF-with-data (bit 3),
 // client read pattern (bits 4-7); the rest is the peer's byte stream.
+var c30FuzzSep = []byte{0xfe, 'S', 'Q', 0xfe}
+
+const c30FuzzMaxReads = 12
+
+func c30FuzzJoin(frames ...[]byte) []byte {
+	return bytes.Join(frames, c30FuzzSep)
+}
+
 func c30FuzzOne(t ev.TB, r *ev.Rec, env *c30Env, data []byte) {
 	if len(data) < 1 || len(data) > 1<<16 {
 		return
 	}
 
+	// a fresh encoder set per input: the verdict on an input must not depend on the inputs executed before it
+	senv := c30NewSeqEnv(env)
+
+	var prev []byte
+
+	reads := 0
+
+	for _, f := range bytes.Split(data, c30FuzzSep) {
+		if len(f) == 0 {
+			f = prev
+		}
+
+		if len(f) == 0 {
+			continue
+		}
+
+		if reads >= c30FuzzMaxReads {
+			return
+		}
+
+		prev = f
+		senv.note = fmt.Sprintf(" [read %d of the fuzz input %s, frames separated by %q and read with one encoder set]", reads, c30Short(data), c30FuzzSep)
+		reads++
+
+		c30FuzzFrame(t, r, senv, f)
+	}
+}
+
+func c30FuzzFrame(t ev.TB, r *ev.Rec, env *c30Env, data []byte) {
 	flags, raw := data[0], data[1:]
 	side := int(flags & 1)
 
